@@ -332,6 +332,27 @@ def returns_only_if(ctx, rule, fn, ret_class, guards_any, name=None, info=False,
            site=loc(fn.d['span']), witness=None if bad is None else {'blocks': bad[:80]}, info=info)
 
 
+def helper_guards(prog, T, fn, lit_pred, name):
+    """Guards established through a bool-returning helper of the crate: outcome o of helper H called in fn establishes the fact when
+    EVERY clause of H's condition for outcome o (truth / falsity DNF) contains a literal satisfying lit_pred.  This keeps a rule stable
+    when a condition is extracted into a private predicate function."""
+    out = []
+    seen = set()
+    for bi, t in fn.calls():
+        for tgt in prog.callee_targets(t):
+            if tgt in seen or not prog.has(tgt) or prog.fn(tgt).d.get('ret') != 'bool':
+                continue
+            seen.add(tgt)
+            for o, getter in (('true', T.truth_dnf), ('false', T.falsity_dnf)):
+                try:
+                    dnf = getter(tgt)[1]
+                except Exception:
+                    dnf = None
+                if dnf and all(any(lit_pred(l) for l in c) for c in dnf):
+                    out.append(CallGuard('^' + re.escape(tgt) + '$', o, name='%s (through %s = %s)' % (name, tgt.split('::')[-1], o)))
+    return out
+
+
 def must_pass_through(ctx, rule, fn, is_target, through, effect_name, guard_name, info=False):
     """every CFG path from entry to a block satisfying is_target passes a block satisfying through
     (path-insensitive: reachability after deleting the `through` blocks)"""
